@@ -102,6 +102,18 @@ func vf30NewKey(rng *rand.Rand) vf30Key {
 	}
 }
 
+// spoofing signer: signs with k's key but claims to be somebody else
+func (k vf30Key) signerAs(scheme int, claimed user.ID) user.Signer {
+	switch scheme {
+	case 0:
+		return user.NewSigner(neofsecdsa.Signer(*k.priv), claimed)
+	case 1:
+		return user.NewSigner(neofsecdsa.SignerRFC6979(*k.priv), claimed)
+	default:
+		return user.NewSigner(neofsecdsa.SignerWalletConnect(*k.priv), claimed)
+	}
+}
+
 func (k vf30Key) signer(scheme int) user.Signer {
 	switch scheme {
 	case 0:
@@ -487,13 +499,24 @@ func TestVerif_C30(t *testing.T) {
 				tokVerb = session.ObjectVerb(rng.IntN(10))
 			}
 			tok.ForVerb(tokVerb)
-			if err := tok.Sign(issuer.signer(scheme)); err != nil {
+			sgn, spoofed := issuer.signer(scheme), rng.IntN(16) == 0
+			if spoofed {
+				sgn = issuer.signerAs(scheme, pool[(rng.IntN(len(pool)-1)+1+vf30Index(pool, issuer))%len(pool)].id)
+			}
+			if err := tok.Sign(sgn); err != nil {
 				r.Inconclusive("cannot sign V1 token: " + err.Error())
 				return
 			}
 			m := tok.ProtoMessage()
 			mut := "none"
-			switch rng.IntN(12) {
+			if spoofed {
+				mut = "signed-by-other-than-claimed-issuer"
+			}
+			mutSel := rng.IntN(12)
+			if spoofed {
+				mutSel = 0
+			}
+			switch mutSel {
 			case 0, 1, 2, 3, 4:
 			case 5:
 				oc := m.Body.GetObject()
@@ -553,6 +576,15 @@ func TestVerif_C30(t *testing.T) {
 	}
 }
 
+func vf30Index(pool []vf30Key, k vf30Key) int {
+	for i := range pool {
+		if pool[i].id == k.id {
+			return i
+		}
+	}
+	return 0
+}
+
 type vf30Verdict func(family, mut string, honoured, refOK bool, why string, sig string, desc map[string]any)
 
 func verdictV1(r *verifkit.Run, svc *Service, w *vf30World, setEpoch func(uint64), rng *rand.Rand, ci int, m *protosession.SessionToken,
@@ -601,6 +633,19 @@ func verdictV1(r *verifkit.Run, svc *Service, w *vf30World, setEpoch func(uint64
 	r.Seen("v1_token_verbs", fmt.Sprint(int(tokVerb)))
 	r.Seen("v1_request_verbs", fmt.Sprint(int(q.verb)))
 
+	// the same body again with a damaged signature while the verdict on the intact token is cached
+	if err == nil && mut == "none" && rng.IntN(3) == 0 {
+		m2 := proto.Clone(m).(*protosession.SessionToken)
+		how := vf30MutSig(rng, m2.Signature, vf30Key{pub: m.Signature.Key})
+		_, err2 := svc.VerifySessionV1TokenMessage(m2, q.verb, q.cnr, q.obj)
+		ok2, _ := vf30RefV1(m2, w.epoch, q)
+		r.Eval(1)
+		if err2 == nil && !ok2 {
+			r.Violation("honoured-invalid|v1|signature|replayed-body-after-cached-success", "V1 token body honoured with a damaged signature ("+how+") right after the intact token was verified", desc)
+		} else {
+			r.Count("v1_rejected_replayed_body_with_damaged_signature", 1)
+		}
+	}
 	// the same (intact) token later: once the epoch passes exp it must not be honoured any more
 	if err == nil && mut == "none" && rng.IntN(4) == 0 {
 		e2 := lt.GetExp() + 1
@@ -773,6 +818,22 @@ func vf30CaseV2(r *verifkit.Run, svc *Service, w *vf30World, rng *rand.Rand, ci 
 		desc["code_error"] = verr.Error()
 	}
 	verdict("v2", mut, verr == nil, ok, why, sig, desc)
+	if verr == nil && mut == "none" && rng.IntN(3) == 0 {
+		m2 := proto.Clone(m).(*protosession.SessionTokenV2)
+		tgt := m2
+		if m2.Origin != nil && rng.IntN(2) == 0 {
+			tgt = m2.Origin
+		}
+		how := vf30MutSig(rng, tgt.Signature, vf30Key{pub: tgt.Signature.Key})
+		_, err2 := svc.VerifySessionTokenMessage(m2, reqVerb, reqCnr)
+		ok2, _ := vf30RefV2(m2, w.now, reqVerb, reqCnr)
+		r.Eval(1)
+		if err2 == nil && !ok2 {
+			r.Violation("honoured-invalid|v2|signature|replayed-body-after-cached-success", "V2 token body honoured with a damaged signature ("+how+") right after the intact token was verified", desc)
+		} else {
+			r.Count("v2_rejected_replayed_body_with_damaged_signature", 1)
+		}
+	}
 	if verr == nil && ok {
 		// observation: honoured although the precise chain time is (less than a second) outside the claims
 		ms := uint64(w.now.UnixMilli())
@@ -804,13 +865,23 @@ func vf30CaseBearer(r *verifkit.Run, svc *Service, w *vf30World, setEpoch func(u
 	if rng.IntN(2) == 0 {
 		tok.ForUser(pool[rng.IntN(len(pool))].id)
 	}
-	if err := tok.Sign(issuer.signer(scheme)); err != nil {
+	sgn, spoofed := issuer.signer(scheme), rng.IntN(16) == 0
+	claimed := issuer.id
+	if spoofed {
+		claimed = pool[(rng.IntN(len(pool)-1)+1+vf30Index(pool, issuer))%len(pool)].id
+		sgn = issuer.signerAs(scheme, claimed)
+	}
+	if err := tok.Sign(sgn); err != nil {
 		r.Inconclusive("cannot sign bearer token: " + err.Error())
 		return
 	}
 	m := tok.ProtoMessage()
 	mut := "none"
-	switch rng.IntN(12) {
+	mutSel := rng.IntN(12)
+	if spoofed {
+		mut, mutSel = "signed-by-other-than-claimed-issuer", 0
+	}
+	switch mutSel {
 	case 0, 1, 2, 3, 4:
 	case 5, 6:
 		b := m.Body
@@ -842,7 +913,7 @@ func vf30CaseBearer(r *verifkit.Run, svc *Service, w *vf30World, setEpoch func(u
 		mut = vf30MutSig(rng, m.Signature, pool[rng.IntN(len(pool))])
 	}
 	reqCnr := cnrs[rng.IntN(2)]
-	owner := issuer.id
+	owner := claimed
 	if rng.IntN(4) == 0 {
 		owner = pool[rng.IntN(len(pool))].id
 	}
@@ -870,6 +941,18 @@ func vf30CaseBearer(r *verifkit.Run, svc *Service, w *vf30World, setEpoch func(u
 	}
 	verdict("bearer", mut, err == nil, ok, why, sig, desc)
 
+	if err == nil && mut == "none" && rng.IntN(3) == 0 {
+		m2 := proto.Clone(m).(*protoacl.BearerToken)
+		how := vf30MutSig(rng, m2.Signature, vf30Key{pub: m.Signature.Key})
+		_, err2 := svc.VerifyBearerTokenMessage(m2)
+		ok2, _ := vf30RefBearer(m2, w.epoch, reqCnr, owner, sender)
+		r.Eval(1)
+		if err2 == nil && !ok2 {
+			r.Violation("honoured-invalid|bearer|signature|replayed-body-after-cached-success", "bearer token body honoured with a damaged signature ("+how+") right after the intact token was verified", desc)
+		} else {
+			r.Count("bearer_rejected_replayed_body_with_damaged_signature", 1)
+		}
+	}
 	if err == nil && mut == "none" && rng.IntN(4) == 0 {
 		e2 := lt.GetExp() + 1
 		w.epoch = e2
